@@ -32,6 +32,8 @@ pub enum Cmd {
     Status,
     SetOpt(u8),
     Shutdown,
+    /// get_ip_check_interval(): waits for the daemon's answer in the calling thread (real-thread part only)
+    GetOpt,
 }
 
 const N_KINDS: u64 = 12;
@@ -118,6 +120,14 @@ fn issue(d: &ServiceDaemon, c: &Cmd, v4: bool) -> Result<Reply, Error> {
             Reply::Unit
         }
         Cmd::Shutdown => Reply::Shutdown(d.shutdown()?),
+        Cmd::GetOpt => {
+            // the error of a call that could not be answered is a message, not DaemonShutdown
+            match d.get_ip_check_interval() {
+                Ok(_) | Err(Error::Msg(_)) => {}
+                Err(e) => return Err(e),
+            }
+            Reply::Unit
+        }
     })
 }
 
@@ -183,6 +193,9 @@ pub fn check_queue(case: &Case, ctx: &mut CaseCtx) {
     let mut replies: Vec<(usize, Cmd, Result<Reply, Error>)> = Vec::new();
     let mut t_first_shutdown_sent = None;
     for (i, (c, step_after, h)) in case.cmds.iter().enumerate() {
+        if *c == Cmd::GetOpt {
+            continue;
+        }
         let dm = &mut w.daemons[di];
         dm.api(format!("[handle {}] {c:?}", h % 3));
         if *c == Cmd::Shutdown && t_first_shutdown_sent.is_none() {
@@ -715,7 +728,7 @@ pub fn check_threads(case: &ThreadsCase, ctx: &mut CaseCtx) {
 
 fn threads_strategy() -> BoxedStrategy<ThreadsCase> {
     (
-        prop::collection::vec(prop::collection::vec((cmd_strategy(), prop_oneof![3 => Just(0u8), 2 => 0u8..20, 1 => 0u8..200]), 4..40), 2..5),
+        prop::collection::vec(prop::collection::vec((prop_oneof![12 => cmd_strategy(), 1 => Just(Cmd::GetOpt)], prop_oneof![3 => Just(0u8), 2 => 0u8..20, 1 => 0u8..200]), 4..40), 2..5),
         prop_oneof![2 => 0u32..300, 3 => 0u32..3000, 1 => 0u32..20000],
         prop::bool::weighted(0.3),
     )
